@@ -46,7 +46,7 @@ def body():
         for e in hsrecs:
             for kind in ("drop", "dup", "swap", "trunc"):
                 scns.append(dict(s, fault=kind, dir=e["dir"], idx=e["idx"]))
-            for k in range(5):
+            for k in range(9):      # 0 replayed first record, 1 handshake message, 2 ChangeCipherSpec, 3 close_notify, 4 application data, 5 empty handshake record, 6/7 warning alerts, 8 HelloRequest
                 scns.append(dict(s, fault="inject", dir=e["dir"], idx=e["idx"], off=k))
             n = e["len"] - 5
             # plaintext handshake messages other than Certificate: every byte; Certificate and encrypted records: every 8th byte (quick)
@@ -92,7 +92,7 @@ def body():
         c.sample({"scenario": s, "events": [json.dumps(e)[:160] for e in evs if e["e"] in ("Rec", "HsRet", "Read", "Close")][-8:]})
     c.cov["exhaustive"] = not c.quick
     return c.finish(
-        rule="for each of 3 protocols x 2 auth modes: every handshake record x {drop, duplicate, swap-with-next, truncate, 5 injections} and "
+        rule="for each of 3 protocols x 2 auth modes: every handshake record x {drop, duplicate, swap-with-next, truncate, 9 injections} and "
              + ("every bit of every payload byte" if not c.quick else "one bit of every byte of the plaintext handshake messages (ClientHello, ServerHello, key exchanges, CertificateRequest, ServerHelloDone, CertificateVerify, ChangeCipherSpec) and of every 8th byte of Certificate and encrypted records") +
              "; non-trivial = the proxy logged an effectively applied fault; distinct = distinct (config, fault, record, offset, bit)",
         trusted=["TLC", "harness/tlsdrv.c proxy (logs the fault it effectively applied)"],
